@@ -1,5 +1,6 @@
 SPECIFICATION Spec
 CONSTANT DevAstralFiveHex = TRUE
+CONSTANT FuncTable <- MCFuncTable
 INVARIANT BindIsSubst
 INVARIANT PreSetIsSubst
 INVARIANT Transparent
